@@ -293,6 +293,10 @@ func (j *Job) evaluateClusterStatus() {
 func (j *Job) start() error {
 	j.log.Info("starting")
 
+	// A checkpoint that was in progress on the previous assembly can never
+	// complete; leaving it pending would block every later checkpoint.
+	j.snapshotStore.AbandonPendingSnapshot()
+
 	// Get the job's current checkpoint which may be nil
 	ckpt := j.snapshotStore.CurrentCheckpoint()
 
